@@ -43,7 +43,11 @@ func workerMain(scratch string) error {
 			if e := os.MkdirAll(dir, 0o755); e != nil {
 				return e
 			}
+			t0 := time.Now()
 			obs := runCase(rq.In, dir)
+			if os.Getenv("VERIFH_C09_TIMING") != "" {
+				fmt.Fprintf(os.Stderr, "TIMING %s %d ms %s\n", rq.ID, time.Since(t0).Milliseconds(), rq.In.Note)
+			}
 			os.RemoveAll(dir)
 			b, e := json.Marshal(workerRsp{ID: rq.ID, Obs: obs})
 			if e != nil {
